@@ -344,6 +344,9 @@ func c18Control(c *Ctx) {
 			found = true
 			var extra []string
 			for _, ft := range flow.FactsAt(call.Block()) {
+				if isErrTest(ft) {
+					continue // error handling of an earlier step
+				}
 				d := factText(ft)
 				if strings.Contains(d, "Manager."+sp.mapField) || strings.Contains(d, "len(mac)") || strings.Contains(d, "len(") {
 					continue
@@ -357,6 +360,27 @@ func c18Control(c *Ctx) {
 		okS, badPos := successNeedsMapCall(c, f, sp.mapField, sp.method)
 		r.Check("C18.control", load.ShortFunc(f), "every successful return has done "+sp.method+" on "+sp.mapField, badPos, okS,
 			sp.fn+" can return nil without the "+sp.method+" although the map is loaded: the control plane believes the binding changed, the kernel still enforces the old state")
+	}
+	// AddBinding writes what it was given: the value it Puts is not pre-filled from the entry already in the map
+	if f := c.fn("pkg/antispoof", "Manager", "AddBinding"); f != nil {
+		var putVal ssa.Value
+		for _, call := range flow.Calls(f) {
+			if flow.CalleeIs(call, "cilium/ebpf", "Map", "Put") {
+				if mi, ok := call.Common().Args[2].(*ssa.MakeInterface); ok {
+					putVal = mi.X
+				}
+			}
+		}
+		prefilled := false
+		for _, call := range flow.Calls(f) {
+			if flow.CalleeIs(call, "cilium/ebpf", "Map", "Lookup") || flow.CalleeIs(call, "cilium/ebpf", "Map", "LookupAndDelete") {
+				if mi, ok := call.Common().Args[2].(*ssa.MakeInterface); ok && putVal != nil && mi.X == putVal {
+					prefilled = true
+				}
+			}
+		}
+		r.Check("C18.control", load.ShortFunc(f), "the binding written is built from the arguments, not from the previous entry", c.P.Pos(f.Pos()), putVal != nil && !prefilled,
+			"AddBinding fills the value it writes from the entry already in the kernel map and only overwrites parts of it: a call that withdraws the IPv4 address (nil) leaves ipv4_valid=1 with the old address, so strict mode keeps forwarding frames from an address the control plane has taken away")
 	}
 	// validity flag stored with the address, mode from m.mode
 	for _, sp := range []struct{ fn, addr, flag string }{{"AddBinding", "IPv4Addr", "IPv4Valid"}, {"AddBindingV6", "IPv6Addr", "IPv6Valid"}} {
